@@ -57,6 +57,46 @@ def analyse(F, ev, path, args, ck, label, ret_check=None):
     return b, v
 
 
+def layered_update_rule(ck, F, ty, rule="V5"):
+    """layered update of one arithmetic: vars[d] <- vars[d] - old message + new message, in the loop that stores the new message"""
+    # V5
+    path = "<%s%s as %s>::update_check_messages_and_vars" % (ARI, ty, TRAIT)
+    b = F.body(path)
+    t5 = Tracer(F, "NONE", mode="int")
+    env = {}
+    for p, nm in zip(b.params, ("self", "check_messages", "vars")):
+        t5.bind(p, var(nm), env)
+    try:
+        t5.eval(b.value, env)
+    except Unsupported as e:
+        raise AnalysisError("%s: unreadable shape: %s" % (path, e))
+    asg = [e for e in t5.events if e.callee == "<assign>"]
+    var_st = [e for e in asg if "index(" in repr(e.args[0]) and "vars" in repr(e.args[0])[:40]]
+    msg_st = [e for e in asg if repr(e.args[0]).startswith(".value(")]
+    ok = len(var_st) == 1 and len(msg_st) == 1
+    why = "expected one store to vars[..] and one to msg.value (found %d, %d)" % (len(var_st), len(msg_st))
+    if ok:
+        vs, ms = var_st[0], msg_st[0]
+        tgt = vs.args[0]
+        new = ms.args[1]
+        is_op = vs.node.get("k") == "assignop"
+        rhs = vs.args[1]
+        total = tgt + rhs if is_op and isinstance(rhs, Poly) and isinstance(tgt, Poly) else rhs
+        ta = single_atom(tgt)
+        d = atom_args(ta)[1] if ta and atom_fn(ta) == "index" else None
+        oldv = None
+        if isinstance(d, Poly):
+            da = single_atom(d)
+            if da and da[0] == "v" and da[1].endswith(".dest"):
+                oldv = var(da[1][:-5] + ".value")
+            elif da and atom_fn(da) == ".dest":
+                oldv = app(".value", atom_args(da)[0])
+        ok = isinstance(total, Poly) and isinstance(new, Poly) and oldv is not None and total == tgt - oldv + new and repr(vs.loops) == repr(ms.loops)
+        why = "vars[d] <- %s ; msg.value <- new ; required vars[d] - old msg.value + new message, in the same loop as the message store (%s)" % (repr(total)[:120], ok)
+    ck.inst(rule, ty + ":layered-update", ok, b.span, why)
+
+
+
 def run(ck, F, tier):
     maxdeg = MAXDEG
     ck.explanation = (
@@ -259,41 +299,7 @@ def run(ck, F, tier):
                 repr(total)[:110], repr(val)[:90], dest_ok, whole)
         ck.inst("V2", ty + ":variable-rule", ok, b.span, why)
 
-        # V5
-        path = "<%s%s as %s>::update_check_messages_and_vars" % (ARI, ty, TRAIT)
-        b = F.body(path)
-        t5 = Tracer(F, "NONE", mode="int")
-        env = {}
-        for p, nm in zip(b.params, ("self", "check_messages", "vars")):
-            t5.bind(p, var(nm), env)
-        try:
-            t5.eval(b.value, env)
-        except Unsupported as e:
-            raise AnalysisError("%s: unreadable shape: %s" % (path, e))
-        asg = [e for e in t5.events if e.callee == "<assign>"]
-        var_st = [e for e in asg if "index(" in repr(e.args[0]) and "vars" in repr(e.args[0])[:40]]
-        msg_st = [e for e in asg if repr(e.args[0]).startswith(".value(")]
-        ok = len(var_st) == 1 and len(msg_st) == 1
-        why = "expected one store to vars[..] and one to msg.value (found %d, %d)" % (len(var_st), len(msg_st))
-        if ok:
-            vs, ms = var_st[0], msg_st[0]
-            tgt = vs.args[0]
-            new = ms.args[1]
-            is_op = vs.node.get("k") == "assignop"
-            rhs = vs.args[1]
-            total = tgt + rhs if is_op and isinstance(rhs, Poly) and isinstance(tgt, Poly) else rhs
-            ta = single_atom(tgt)
-            d = atom_args(ta)[1] if ta and atom_fn(ta) == "index" else None
-            oldv = None
-            if isinstance(d, Poly):
-                da = single_atom(d)
-                if da and da[0] == "v" and da[1].endswith(".dest"):
-                    oldv = var(da[1][:-5] + ".value")
-                elif da and atom_fn(da) == ".dest":
-                    oldv = app(".value", atom_args(da)[0])
-            ok = isinstance(total, Poly) and isinstance(new, Poly) and oldv is not None and total == tgt - oldv + new and repr(vs.loops) == repr(ms.loops)
-            why = "vars[d] <- %s ; msg.value <- new ; required vars[d] - old msg.value + new message, in the same loop as the message store (%s)" % (repr(total)[:120], ok)
-        ck.inst("V5", ty + ":layered-update", ok, b.span, why)
+        layered_update_rule(ck, F, ty)
 
     # ---- V6 -------------------------------------------------------------------------------------------------
     from .c10 import scratch_discipline
